@@ -176,3 +176,18 @@ def if_cases(e: ast.AST, conds=()) -> List[Tuple[Tuple[Tuple[ast.AST, bool], ...
     if isinstance(e, ast.IfExp):
         return if_cases(e.body, conds + ((e.test, True),)) + if_cases(e.orelse, conds + ((e.test, False),))
     return [(tuple(conds), e)]
+
+
+def final_return_expr(fn: ast.AST) -> Optional[ast.AST]:
+    """the value a function returns at its end, as ONE expression: `return E`  or  `if C: return A` directly followed by `return B`
+    (read as `A if C else B`).  None if the function does not end that way."""
+    body = [st for st in fn.body if not isinstance(st, ast.Pass)]
+    if not body or not isinstance(body[-1], ast.Return) or body[-1].value is None:
+        return None
+    expr = body[-1].value
+    i = len(body) - 2
+    while i >= 0 and isinstance(body[i], ast.If) and not body[i].orelse and len(body[i].body) == 1 and isinstance(body[i].body[0], ast.Return) \
+            and body[i].body[0].value is not None:
+        expr = ast.copy_location(ast.IfExp(test=body[i].test, body=body[i].body[0].value, orelse=expr), body[i])
+        i -= 1
+    return expr
